@@ -1,33 +1,35 @@
 import Chewing.Proofs.ConvLive1
 import Chewing.Proofs.ConvLive3
 /-!
-Liveness of `ChewingEngine::convert`: with a word for every syllable the conversion does not panic, its
-loops finish within the supplied fuel, and it returns at least one alternative.
+Liveness of `ChewingEngine::convert`: on a valid composition the conversion does not panic, its loops
+finish within the supplied fuel, and it returns at least one alternative — for every dictionary (a
+syllable without a word is shown as its spelling).
 -/
 namespace Chewing.Conv
 
 theorem edgesValid_of_findIntervals {d : Dict} {strat : Strategy} {c : Composition} {es : List Edge}
-    (hc : CompValid c) (hd : NoEmptyKey d) (hes : findIntervals d strat c = .ok es) :
+    (hes : findIntervals d strat c = .ok es) :
     EdgesValid c.symbols.length es := by
   intro e he
-  obtain ⟨h1, _, h3, h4⟩ := findIntervals_edge hes he
-  exact ⟨h1.lt hd hc h3, h4⟩
+  obtain ⟨h1, _, _, h4⟩ := findIntervals_edge hes he
+  exact ⟨h1.lt, h4⟩
 
 theorem EdgeOK.freq_le {d : Dict} {strat : Strategy} {c : Composition} {e : Edge} (h : EdgeOK d strat c e) {B : Nat}
     (hb : ∀ key, ∀ p ∈ d.lookup key strat, p.freq ≤ B) : e.phrase.freq ≤ B := by
-  rcases h.kind with ⟨cp, hph, _⟩ | ⟨p, hph, _, ⟨hl, _⟩ | ⟨x, _, _, _, hp⟩⟩
+  rcases h.kind with ⟨cp, hph, _⟩ | ⟨p, hph, _, ⟨hl, _⟩ | ⟨x, _, _, _, hp⟩ | ⟨k, _, hp, _⟩⟩
   · rw [hph]; exact Nat.zero_le _
   · rw [hph]; exact hb _ p hl
+  · rw [hph, hp]; exact Nat.zero_le _
   · rw [hph, hp]; exact Nat.zero_le _
 
 /-- the raw k-shortest paths exist: no `unwrap()` on "no path" (F02), no index panic, fuel suffices -/
 theorem rawPaths_live {pick : Nat → List Path → Nat} {d : Dict} {strat : Strategy} {c : Composition}
-    (hpick : PickInRange pick) (hc : CompValid c) (hd : NoEmptyKey d) (hw : HasWord d strat c) :
+    (hpick : PickInRange pick) (hc : CompValid c) :
     ∃ es paths, findIntervals d strat c = .ok es ∧ rawPaths pick d strat c = .ok paths ∧ paths ≠ [] ∧
       trimPaths paths ≠ [] := by
   obtain ⟨es, hes⟩ := findIntervals_total (d := d) (strat := strat) hc
-  have hv := edgesValid_of_findIntervals hc hd hes
-  obtain ⟨p, hp⟩ := reach_zero hc hw hes
+  have hv := edgesValid_of_findIntervals hes
+  obtain ⟨p, hp⟩ := reach_zero hc hes
   obtain ⟨paths, hpaths, hne⟩ := findKPaths_total hpick (k := maxOutPaths) hv hp
   refine ⟨es, paths, hes, ?_, hne, trimPaths_ne hne⟩
   unfold rawPaths
@@ -35,20 +37,20 @@ theorem rawPaths_live {pick : Nat → List Path → Nat} {d : Dict} {strat : Str
   exact hpaths
 
 theorem convertChewing_live {pick : Nat → List Path → Nat} {d : Dict} {strat : Strategy} {c : Composition}
-    (hpick : PickInRange pick) (hc : CompValid c) (hd : NoEmptyKey d) (hw : HasWord d strat c)
+    (hpick : PickInRange pick) (hc : CompValid c)
     (hb : ScoreBound d strat c) : ∃ alts, convertChewing pick d strat c = .ok alts ∧ alts ≠ [] := by
   unfold convertChewing
   by_cases h0 : c.symbols.length = 0
   · rw [if_pos h0]; exact ⟨_, rfl, by simp⟩
   · rw [if_neg h0]
-    obtain ⟨es, paths, hes, hraw, hne, htrim⟩ := rawPaths_live hpick hc hd hw
+    obtain ⟨es, paths, hes, hraw, hne, htrim⟩ := rawPaths_live hpick hc
     rw [hraw]
     simp only
     have hchain : ∀ p ∈ paths, IsChain es 0 c.symbols.length p := by
       unfold rawPaths at hraw
       rw [hes] at hraw
       exact findKPaths_chain hraw
-    have hv := edgesValid_of_findIntervals hc hd hes
+    have hv := edgesValid_of_findIntervals hes
     have hscore : ∀ p ∈ trimPaths paths, ∃ s, score p = .ok s := by
       intro p hp
       exact score_total (hchain p (trimPaths_sub p hp)) (fun e he => (hv e he).1)
